@@ -535,7 +535,7 @@ func (vc *VC) knownGlobal(base string) (Sym, bool) {
 					}
 					vc.emit(fmt.Sprintf("(assert (and (<= 0 %s_arr) (< %s_arr %s) (<= 0 %s_off) (<= 0 %s_len) (<= %s_len %s_cap) (<= (+ %s_off %s_cap) %s) (=> (= %s_arr 0) (= %s_cap 0))))", c, c, vc.entry.alloc, c, c, c, c, c, c, maxSliceLen, c, c))
 					for _, d := range vc.eng.db.Structural {
-						if d.Kind == "initvalue" && d.Name == name {
+						if d.Kind == "initvalue" && d.Name == name && (len(d.Vals) == 0 || d.Vals[len(d.Vals)-1] != "*") {
 							vc.emit(fmt.Sprintf("(assert (= %s_len %d))", c, len(d.Vals)))
 						}
 					}
@@ -1147,10 +1147,10 @@ func (f *frame) sliceOp(x *ssa.Slice, cur *State) {
 }
 
 type mapKeyInfo struct {
-	has, val, card       string
-	hasSort, valSort     string
-	ksort, vsort         string
-	vtype                types.Type
+	has, val, card   string
+	hasSort, valSort string
+	ksort, vsort     string
+	vtype            types.Type
 }
 
 func (f *frame) mapKeys(mt *types.Map) mapKeyInfo {
